@@ -45,6 +45,8 @@ def project(files, agg):
     from codelimit.common.SourceFileEntry import SourceFileEntry
 
     cb = Codebase("/root")
+    cb.all_measurements()            # asked while it is still empty: an answer given then says nothing about later
+    Report(cb).quality_profile()
     fresh = ScanTotals()
     early = None
     fileprof_ok = True
@@ -73,6 +75,8 @@ def project(files, agg):
     doc_tree = [[key_of(k), [["folder", n[:-1]] if n.endswith("/") else ["file", n] for n in v["entries"]], v["profile"]] for k, v in doc["tree"].items()]
     doc_tot = [[l, v["files"], v["lines_of_code"], v["functions"], v["hard_to_maintain"], v["unmaintainable"]] for l, v in doc["totals"].items()]
     doc_same = doc_tree == tree and doc_tot == totals and list(doc["files"]) == ordered
+    if agg:  # "the root's profile equals the whole codebase's": the profile the report computes from all measurements
+        doc_same = doc_same and list(cb.tree["./"].profile) == list(Report(cb).quality_profile()) and cb.total_loc() == sum(sum(l) for _, _, l in files)
     # whatever the early writer emits (the codebase as it is now, or as it was when the writer was made) is ONE codebase:
     # its totals section agrees with its own files section, and its tree lists exactly those files
     if early is not None:
